@@ -1,6 +1,7 @@
 package main
 
 import (
+	"math"
 	"fmt"
 	"go/token"
 	"go/types"
@@ -1241,7 +1242,18 @@ func ruleCreateOnlyMerge(w *World, r *Report, pf *patchFamily, scope func(*ssa.F
 			n++
 			k++
 			r.Fn(fnName(fn))
-			r.Check(len(cut) > 0 && cutsOff(fn, cut, in.Block()), rule, fmt.Sprintf("%s:fresh-object#%d", fnName(fn), k), w.Pos(in.Pos()),
+			okCut := len(cut) > 0 && cutsOff(fn, cut, in.Block())
+			if !okCut {
+				// path-sensitive second try: with the strategy bound to the strict constant, is the site reachable at all?
+				if sp := pf.roleParam(fn, "strategy"); sp != nil {
+					strict := pf.strategyConst("strictPatchStrategy").Value.Value.ExactString()
+					fs := NewFactsEntry(fn, closedEnums(w, pf.pkg), state{term{v: sp, isLen: false}: fact{lo: math.MinInt64, hi: math.MaxInt64, eq: strict}})
+					if _, reach := fs.At(in.Block()); !reach {
+						okCut = true
+					}
+				}
+			}
+			r.Check(okCut, rule, fmt.Sprintf("%s:fresh-object#%d", fnName(fn), k), w.Pos(in.Pos()),
 				"a fresh empty object is produced only where the strategy cannot be strict",
 				"a fresh empty object (a stand-in for a missing parent) can be produced under strict strategy: a strict hunk whose path leads through a missing member is applied to a made-up parent instead of being rejected")
 		})
